@@ -141,7 +141,7 @@ func replay(path string) {
 	}
 	if b, err := os.ReadFile(path); err == nil && json.Unmarshal(b, &pf) == nil && len(pf.Replay.Ops) > 0 {
 		if _, k, d := pBuild(pf.Replay.Ops); k != "" {
-			fmt.Printf("VIOLATION property=C01 replay=%s\n  %s: %s\n", path, k, d)
+			fmt.Printf("VIOLATION property=%s replay=%s\n  %s: %s\n", ev.As("C01"), path, k, d)
 			os.Exit(1)
 		}
 		fmt.Println("replay: property held")
@@ -164,7 +164,7 @@ func replay(path string) {
 	w, k, d := build(f.Replay.Config, f.Replay.Ops)
 	fmt.Println(idxlib.DumpKey(w.Ix.VerifDump()))
 	if k != "" {
-		fmt.Printf("VIOLATION property=C01 replay=%s\n  %s: %s\n", path, k, d)
+		fmt.Printf("VIOLATION property=%s replay=%s\n  %s: %s\n", ev.As("C01"), path, k, d)
 		os.Exit(1)
 	}
 	fmt.Println("replay: property held")
